@@ -626,7 +626,7 @@ func (x *g) promBody(b *Block, path string, templated bool) {
 		b.Set("concurrency", x.intVal(path+".concurrency", []int64{0, 1, 4, 16}))
 	}
 	if x.optional(1, 3) {
-		b.Set("rateLimit", x.intVal(path+".rateLimit", []int64{0, 100, 1000}))
+		b.Set("rateLimit", x.intVal(path+".rateLimit", []int64{1000, 1000, 100, 0}))
 	}
 	if x.optional(1, 3) {
 		v := x.pick(uptimes, "uptime")
